@@ -75,11 +75,14 @@ CLAIMED.update({
             _bsr("z3 shows the printer's E register equals the file's whenever no episode is open, every forwarded printing "
                  "move pushes the file's amount, suppressed moves push nothing."),
             PIPE_NOTE + "absolute extrusion; one symbolic retraction length; K=3 all roles, K=5 core roles, K=4 firmware (quick); "
-            "two known findings assumed away (owed recovery before a printing move; retraction dropped while a recovery is owed)."),
+            "two known findings assumed away (owed recovery before a printing move; retraction dropped while a recovery is owed). "
+            "Inductive step over the three retraction classes (none / retracted / recovery owed), inside and outside an episode: any "
+            "program length for E-style retraction."),
     "C05": ("DESIGN.md 9/C05", TECH + "bounded symbolic runs over role-structured programs",
             _bsr("z3 shows physical retraction depth never exceeds the deepest requested, is never shallower than the file's, "
                  "equals the file's when a forwarded printing move extrudes; firmware G10/G11 alternate, keep parity and parameters."),
-            PIPE_NOTE + "same programs as C04; depth = high-water mark minus filament position of each reference printer."),
+            PIPE_NOTE + "same programs and inductive step as C04; depth = high-water mark minus filament position of each reference "
+            "printer; one known finding (retraction dropped while a recovery is owed) assumed away."),
     "C06": ("DESIGN.md 9/C06", TECH + "bounded symbolic runs through the real plugin hooks with configured scripts and deferred codes",
             _bsr("for every mode assignment, D occurrences with symbolic parameters and each of four endings z3 shows the flush "
                  "equals the deferred-code model (first/last/merge/exclude), scripts appear exactly once in the right place and "
